@@ -117,7 +117,16 @@ def translate_dpseg(src):
             for it in n.items:
                 if contains_call(it.context_expr, 'NamedTemporaryFile') and any(contains_call(b, 'Popen') for b in n.body):
                     ctx = True
-    return dict(checks=checks, ctx=ctx)
+    # the folds are run by joblib.Parallel: which backend?
+    seg = func(tree, 'segment')
+    par = [n for n in ast.walk(seg) if isinstance(n, ast.Call) and isinstance(n.func, ast.Attribute) and n.func.attr == 'Parallel']
+    if len(par) != 1:
+        raise TranslationError('expected exactly one joblib.Parallel call in dpseg.segment, found %d' % len(par))
+    threads = any(k.arg == 'backend' and isinstance(k.value, ast.Constant) and k.value.value == 'threading' for k in par[0].keywords)
+    for k in par[0].keywords:
+        if k.arg not in ('n_jobs', 'verbose', 'backend'):
+            raise TranslationError('joblib.Parallel keyword not understood: ' + str(k.arg))
+    return dict(checks=checks, ctx=ctx, threads=threads)
 
 
 def b(x):
@@ -132,9 +141,9 @@ def main():
 From WS Require Import Base.Py AG.Proc.
 Definition ag_cfg_src : ag_cfg :=
   {| ag_before := %d; ag_after := %d; ag_pipefail := %s; ag_checks := %s; ag_finally := %s; ag_grammar_ctx := %s |}.
-Definition dp_cfg_src : dp_cfg := {| dp_checks := %s; dp_tmp_ctx := %s |}.
+Definition dp_cfg_src : dp_cfg := {| dp_checks := %s; dp_tmp_ctx := %s; dp_threads := %s |}.
 ''' % (' | '.join(ag['stages']).replace('*)', '* )'), ag['before'], ag['after'], b(ag['pipefail']), b(ag['checks']), b(ag['fin']), b(ag['ctx']),
-       b(dp['checks']), b(dp['ctx']))
+       b(dp['checks']), b(dp['ctx']), b(dp['threads']))
     os.makedirs(os.path.dirname(OUT), exist_ok=True)
     if not os.path.exists(OUT) or open(OUT).read() != text:
         open(OUT, 'w').write(text)
